@@ -33,6 +33,21 @@ theorem nested_parcollect {α β γ} (g : β → γ) (outs : α → List β) (tx
   intro t _
   exact collect_any_schedule g (outs t) (inner t) (hin t)
 
+/-- **the two parallel loops of the code, on the model's own functions.**  `Block::new` hashes the transactions of a block in
+    a parallel indexed collect, and `EvaluatedTx::new` evaluates the output scripts of each transaction in a nested one.  Run
+    as the slot machine above with ANY outer schedule over the transactions and ANY inner schedule per transaction (each
+    covering its tasks), the collected structure is exactly what the callbacks of the whole-program model compute sequentially:
+    per transaction its txid (`CB.txid`) and, per output in order, the verdict `S.eval ver script` -/
+theorem block_evaluation_schedule_independent (ver : UInt8) (txs : List W.RTx) (sched : List Nat) (inner : W.RTx → List Nat)
+    (hall : ∀ j, j < txs.length → j ∈ sched) (hin : ∀ t : W.RTx, ∀ j, j < t.outs.length → j ∈ inner t) :
+    runSched (fun t => (CB.txid t, runSched (fun o => S.eval ver o.script) t.outs (inner t))) txs sched =
+      (txs.map fun t => (CB.txid t, (t.outs.map fun o => S.eval ver o.script).map some)).map some := by
+  rw [collect_any_schedule _ txs sched hall]
+  congr 1
+  apply List.map_congr_left
+  intro t _
+  rw [collect_any_schedule _ t.outs (inner t) (hin t)]
+
 /-- the whole-program model is a function of (options, xor key, index kv pairs, blk files) alone: equal inputs, equal output.
     (Nothing else — dump-folder content, thread count, time — is an argument of `Run.run`.) -/
 theorem model_is_function (o : Run.Opts) (key : Option W.Bytes) (kvs : List (W.Bytes × W.Bytes)) (files : List Run.BlkFile)
